@@ -256,14 +256,8 @@ func (h *H) genProtoTag(ft *Ty, used map[int]bool, pos int) string {
 		wire = "bytes"
 	case "f32":
 		wire = "fixed32"
-		if ft.K == "ptr" {
-			wire = "varint" // defect 40: a fixed tag on a pointer field encodes the pointer word; not generated
-		}
 	case "f64":
 		wire = "fixed64"
-		if ft.K == "ptr" {
-			wire = "varint"
-		}
 	case "i32", "int", "i64":
 		if h.Intn(3) == 0 {
 			wire = "zigzag64"
@@ -272,11 +266,11 @@ func (h *H) genProtoTag(ft *Ty, used map[int]bool, pos int) string {
 			}
 		}
 	case "u32":
-		if h.Intn(3) == 0 && ft.K != "ptr" {
+		if h.Intn(3) == 0 {
 			wire = "fixed32"
 		}
 	case "u64":
-		if h.Intn(3) == 0 && ft.K != "ptr" {
+		if h.Intn(3) == 0 {
 			wire = "fixed64"
 		}
 	}
@@ -955,15 +949,25 @@ func (h *H) genUnknownRecord(t *Ty, depth int) []byte {
 	}
 	var num uint64
 	for {
-		switch h.Intn(5) {
+		switch h.Intn(6) {
 		case 0:
 			num = uint64(1 + h.Intn(1<<29-1))
 		case 1:
 			num = uint64([]int{15, 16, 2047, 2048, 65535, 65536, 65537, 1<<29 - 1}[h.Intn(8)])
+		case 2: // an undeclared number whose low 16 bits are those of a declared field (field tables indexed by uint16)
+			if st.K == "st" && len(st.Fields) > 0 {
+				i := h.Intn(len(st.Fields))
+				num = uint64(specNumber(st.Fields[i], i+1))&0xffff + 65536*uint64(1+h.Intn(8000))
+				if num >= 1<<29 {
+					num = uint64(specNumber(st.Fields[i], i+1))&0xffff + 65536
+				}
+			} else {
+				num = 65537
+			}
 		default:
 			num = uint64(1 + h.Intn(60))
 		}
-		if !declared[num] && !declared[num&0xffff] {
+		if !declared[num] {
 			break
 		}
 	}
